@@ -328,16 +328,16 @@ def lattice_c05(ctx):
                   [('primal', 'poly_relaxation over log_AbK domain', 'poly_ell=1'), ('dual', 'poly_relaxation over log_AbK domain', 'poly_ell=1')]], [])
     if why:
         return why, nsolves
-    # the domain matters: x0^3 - x0 is unbounded below on R but not on |x0| <= 2; every level and both forms see the domain
-    pd = x[0] ** 3 - 3 * x[0]
-    Xd = sp.infer_domain(pd, [4 - x[0] ** 2], [])
-    ubd = min(float(pd(np.array([t]))) for t in np.linspace(-2, 2, 4001))
+    # the domain matters: the minimum of x^4 - 4x^2 + x over |x| <= 1 (-4 at x = -1) is far above its global minimum; every level and both forms see the domain
+    pd = x[0] ** 4 - 4 * x[0] ** 2 + x[0]
+    Xd = sp.infer_domain(pd, [1 - x[0] ** 2], [])
+    ubd = min(float(pd(np.array([t]))) for t in np.linspace(-1, 1, 4001))
     vals = {}
     for form in ('primal', 'dual'):
         for pe in (0, 1, 2):
             vals[(form, 'poly_ell=%d' % pe)] = _solve(lambda: sp.poly_relaxation(pd, X=Xd, form=form, poly_ell=pe))
             nsolves += 1
-    why = _judge(vals, ubd, 'min x^3 - 3x over |x| <= 2 (unbounded below on R)', [[('primal', 'poly_ell=%d' % pe), ('dual', 'poly_ell=%d' % pe)] for pe in (0, 1, 2)],
+    why = _judge(vals, ubd, 'min x^4 - 4x^2 + x over |x| <= 1', [[('primal', 'poly_ell=%d' % pe), ('dual', 'poly_ell=%d' % pe)] for pe in (0, 1, 2)],
                  [[(form, 'poly_ell=0'), (form, 'poly_ell=1'), (form, 'poly_ell=2')] for form in ('primal', 'dual')])
     if why:
         return why, nsolves
